@@ -42,6 +42,24 @@ void h_base64_roundtrip(void)
 	V_REACH();
 }
 
+/* block level: decode_block(encode_block(f, n)) = f padded to a multiple of 3 */
+static void blk(size_t n)
+{
+	uint8_t f[12], t[20], back[16];
+	for (size_t i = 0; i < n; i++) f[i] = nondet_u8();
+	int el = base64_encode_block(t, f, (int)n);
+	CHECK(el == (int)(4 * ((n + 2) / 3)), "encoded block length");
+	for (int i = 0; i < el; i++) CHECK((t[i] >= 'A' && t[i] <= 'Z') || (t[i] >= 'a' && t[i] <= 'z') || (t[i] >= '0' && t[i] <= '9') || t[i] == '+' || t[i] == '/' || (t[i] == '=' && i >= el - 2), "base64 alphabet, padding only at the end");
+	int dl = base64_decode_block(back, t, el);
+	CHECK(dl == (int)(3 * ((n + 2) / 3)), "decoded block length");
+	for (size_t i = 0; i < n; i++) CHECK(back[i] == f[i], "decode_block(encode_block(f)) = f");
+}
+void h_base64_block(void)
+{
+	size_t n = nondet_size(); ASSUME(n >= 1 && n <= 9);
+	for (size_t k = 1; k <= 9; k++) if (n == k) { blk(k); break; }
+	V_REACH();
+}
 /* hex */
 void h_hex(void)
 {
